@@ -89,7 +89,55 @@ Definition diagnose (comp : bytes) (d : arg) : bytes :=
   | _ => []
   end.
 
+(* ---- growth clause for a doubling series (op series) ----
+   input: (component name (input_1 input_2 input_3)) - the same shape at growing sizes;
+   impl: ((status allocated wall-us cpu-us) ...) in the same order.
+   For every pair x before y of the series:
+       cpu(y) <= 8 * ceil(len(y) / len(x)) * max(cpu(x), 50 ms) + 200 ms
+   i.e. time may grow 8 times faster than the size (any linear and any reasonable n log n
+   process passes; a cubic one - 64-fold for a 4-fold input - does not), a time below the
+   measurement noise of 50 ms counts as 50 ms, and 200 ms of slack absorb a collection cycle.
+   The members of a series are also alloc cases of their own (absolute clauses). *)
+Definition series_factor : N := 8.
+Definition series_noise_us : N := 50000.
+Definition series_slack_us : N := 200000.
+
+Definition series_pair_bad (x y : N * N) : bool :=
+  let '(lx, cx) := x in let '(ly, cy) := y in
+  if lx =? 0 then false else
+  let k := (ly + lx - 1) / lx in
+  series_factor * k * N.max cx series_noise_us + series_slack_us <? cy.
+
+Fixpoint series_first_bad (l : list (N * N)) : option ((N * N) * (N * N)) :=
+  match l with
+  | [] => None
+  | x :: r =>
+      match find (series_pair_bad x) r with
+      | Some y => Some (x, y)
+      | None => series_first_bad r
+      end
+  end.
+
+Definition series_items (inputs impls : list arg) : list (N * N) :=
+  map (fun p => (input_len (fst p), arg_N (arg_nth 3 (snd p)))) (combine inputs impls).
+
+Definition series_all_completed (impls : list arg) : bool :=
+  forallb (fun r => Z.eqb (arg_Z (arg_nth 0 r)) 0) impls.
+
+Definition check_series (input impl : arg) : arg :=
+  let inputs := arg_list (arg_nth 2 input) in
+  let impls := arg_list impl in
+  if negb (series_all_completed impls) then AL []   (* judged by the members' own alloc cases *)
+  else match series_first_bad (series_items inputs impls) with
+       | None => AL []
+       | Some ((lx, cx), (ly, cy)) =>
+           AB (bs "time grows super-linearly with the size of one field: " ++ dec_of_N (cx / 1000) ++ bs " ms of CPU time for "
+               ++ dec_of_N lx ++ bs " bytes, " ++ dec_of_N (cy / 1000) ++ bs " ms for " ++ dec_of_N ly
+               ++ bs " bytes (allowed: 8 times the growth of the input, plus 200 ms)")
+       end.
+
 Definition check_C08 (op : bytes) (input impl : arg) : arg :=
+  if bytes_eqb op (bs "series") then check_series input impl else
   if bytes_eqb op (bs "stream") then
     if negb (Z.eqb (arg_Z (arg_nth 0 impl)) 0) then AS "inspection of an endless input did not terminate normally"
     else if spec_read_cap <? arg_N (arg_nth 1 impl) then AS "more than 128 MB of the input were read"
